@@ -12,6 +12,12 @@ from ..ref import names, avrobin, normalize
 LEVEL = 'exploration'
 
 
+ZERO_WIDTH = ['null', {'type': 'record', 'name': 'Empty', 'fields': []}, {'type': 'fixed', 'name': 'F0', 'size': 0},
+              {'type': 'record', 'name': 'Nulls', 'fields': [{'name': 'a', 'type': 'null'}, {'name': 'b', 'type': {'type': 'record', 'name': 'E2', 'fields': []}},
+                                                             {'name': 'c', 'type': {'type': 'fixed', 'name': 'F00', 'size': 0}}]},
+              {'type': 'array', 'items': 'null'}, {'type': 'map', 'values': {'type': 'record', 'name': 'E3', 'fields': []}}]
+
+
 def make_cases(run, n, max_len, seed_tag='c03'):
     cases = []
     bc = common.boundary_cases()
@@ -19,6 +25,9 @@ def make_cases(run, n, max_len, seed_tag='c03'):
         rng = random.Random('%s/%s/%d' % (run.seed, seed_tag, i))
         if i % 4 == 0:
             j = bc[(i // 4) % len(bc)][0]
+        elif i % 8 == 1:
+            # values that occupy no bytes: "a block is pending" and "the buffer holds bytes" are different conditions for them
+            j = ZERO_WIDTH[(i // 8) % len(ZERO_WIDTH)]
         else:
             j = gschema.SchemaGen(rng, gschema.Opts(max_depth=rng.choice([0, 1, 2, 2, 3]), decorations=rng.random() < 0.2)).gen()
         node, env = names.parse(j)
